@@ -25,7 +25,7 @@ MIN_COUNTS = {"quick": {"nontrivial": 600, "faulted_runs": 1200, "clean_runs": 2
 CASE_TIMEOUT = 300
 
 VECS = {"fvec": "[0.3 0.7 1.1]", "fvec2": "[2.3 13.7]", "ivec": "[1 2 3]", "fscalar": "1.1", "iscalar": "2", "fmat": "[[0.3 0.7] [1.1 2.3]]", "fvec1": "[0.7]"}
-FORMS = ["ag-literal", "ag-symbol", "nabla-symbol", "nabla-literal", "jac-literal", "multi", "multi-jac", "jac-symbol-point"]
+FORMS = ["ag-literal", "ag-symbol", "nabla-symbol", "nabla-literal", "jac-literal", "multi", "multi-jac", "jac-symbol-point", "multi-dup", "multi-jac-dup"]
 
 
 def cases(tier, seed):
@@ -36,7 +36,7 @@ def cases(tier, seed):
             for backend in ("numpy", "torch"):
                 for fault in ("sweep", "non-scalar", "unknown-name"):
                     for body in ("sumsq", "prod", "mixed"):
-                        if form in ("jac-literal", "multi-jac", "jac-symbol-point") and pk in ("fscalar", "iscalar"):
+                        if form in ("jac-literal", "multi-jac", "jac-symbol-point", "multi-jac-dup") and pk in ("fscalar", "iscalar"):
                             continue
                         out.append({"form": form, "param": pk, "backend": backend, "fault": fault, "salt": 0, "body": body})
     return out
@@ -124,18 +124,19 @@ def _setup(case):
         pre.append("p::%s" % lit)
         expr = ("%s∂g" % lit) if form == "jac-literal" else "p∂g"
         fcall = "g(p)"
-    elif form == "multi":
+    elif form in ("multi", "multi-dup"):
         pre.append("w::%s" % lit)
         pre.append("b::0.7")
         pre.append("c::[2.3 1.1]")
         pre.append("loss::{hook((%s)+(b*b)+(+/c*c))}" % core.replace("VAR", "w"))
-        expr = "loss:>[w b c]"
+        # a parameter list may name a symbol twice (tied weights, a typo): still no variable may change
+        expr = "loss:>[w b c]" if form == "multi" else "loss:>[w b w]"
         fcall = "loss()"
     else:  # multi-jac
         pre.append("w::%s" % lit)
         pre.append("b::[0.7 2.3]")
         pre.append("g::{hook((+/,/w*w)*b)}")
-        expr = "[w b]∂g"
+        expr = "[w b]∂g" if form == "multi-jac" else "[w w b]∂g"
         fcall = "g()"
     return k, state, pre, expr, fcall
 
@@ -203,8 +204,8 @@ def run_case(ctx, case):
                 return res
     elif case["fault"] == "non-scalar":
         # a loss that returns a vector where a scalar is required
-        name = "f" if case["form"] not in ("multi",) else "loss"
-        if case["form"] in ("jac-literal", "jac-symbol-point", "multi-jac"):
+        name = "f" if case["form"] not in ("multi", "multi-dup") else "loss"
+        if case["form"] in ("jac-literal", "jac-symbol-point", "multi-jac", "multi-jac-dup"):
             return res
         var = "x" if name == "f" else "w"
         kl.ev(k, "%s::{hook([1.0 2.0]*%s)}" % (name, "+/,/" + var))
@@ -215,8 +216,8 @@ def run_case(ctx, case):
         cnt["faulted_runs"] = cnt.get("faulted_runs", 0) + 1
         check("non-scalar loss, operator %s" % ("raised" if r[0] == "err" else "returned"), "non-scalar")
     else:
-        name = {"multi": "loss", "multi-jac": "g", "jac-literal": "g", "jac-symbol-point": "g"}.get(case["form"], "f")
-        var = "w" if case["form"] in ("multi", "multi-jac") else "x"
+        name = {"multi": "loss", "multi-dup": "loss", "multi-jac": "g", "multi-jac-dup": "g", "jac-literal": "g", "jac-symbol-point": "g"}.get(case["form"], "f")
+        var = "w" if case["form"] in ("multi", "multi-jac", "multi-dup", "multi-jac-dup") else "x"
         kl.ev(k, "%s::{hook((+/,/%s*%s)+nosuchname(1))}" % (name, var, var))
         s0.update(_snap(k))
         f0 = kl.ev(k, fcall)
